@@ -37,7 +37,7 @@ pub struct Obs {
     pub layout_after_use: Vec<(String, Result<Layout, String>)>,
     pub ident_error: Option<String>,
     pub max_threads: usize,
-    /// run counters after the script [seq, par, dispatch, thread_local, run_now, dispatch on a second world, dispatch on the first again]
+    /// run counters after the script [seq, par, dispatch, thread_local, run_now, dispatch on a second world, dispatch on the first again, dispatch from a destructor during unwinding]
     pub runs: Option<Vec<u32>>,
     pub dispatch_panic: Option<String>,
     /// two dispatches on a world from which abstract resource A (0) / C (2) has been removed, for plans in which only
@@ -217,6 +217,19 @@ pub fn observe(ops: &[Op], resmap: &[u8], need: Need) -> Obs {
             d.dispatch(&world2);
             ctx.dispatch_no.store(7, std::sync::atomic::Ordering::Relaxed);
             d.dispatch(&world);
+            // one more dispatch, issued from a destructor while the calling thread unwinds from a panic (a final
+            // "flush" in a Drop impl): a dispatch like any other
+            ctx.dispatch_no.store(8, std::sync::atomic::Ordering::Relaxed);
+            struct OnUnwind<'x, 'a, 'b>(&'x mut shred::Dispatcher<'a, 'b>, &'x World);
+            impl<'x, 'a, 'b> Drop for OnUnwind<'x, 'a, 'b> {
+                fn drop(&mut self) {
+                    self.0.dispatch(self.1);
+                }
+            }
+            let _ = catch_unwind(AssertUnwindSafe(|| {
+                let _g = OnUnwind(&mut d, &world);
+                std::panic::resume_unwind(Box::new(0u8));
+            }));
         }));
         if let Err(p) = r {
             o.dispatch_panic = Some(payload_str(&*p));
@@ -285,6 +298,16 @@ pub fn observe(ops: &[Op], resmap: &[u8], need: Need) -> Obs {
                         let world2 = if resmap.iter().any(|c| *c as usize >= NCONCRETE) { new_world_wide() } else { new_world() };
                         d2.dispatch(&world2);
                         d2.dispatch(&world);
+                        struct OnUnwind2<'x, 'a, 'b>(&'x mut shred::Dispatcher<'a, 'b>, &'x World);
+                        impl<'x, 'a, 'b> Drop for OnUnwind2<'x, 'a, 'b> {
+                            fn drop(&mut self) {
+                                self.0.dispatch(self.1);
+                            }
+                        }
+                        let _ = catch_unwind(AssertUnwindSafe(|| {
+                            let _g = OnUnwind2(&mut d2, &world);
+                            std::panic::resume_unwind(Box::new(0u8));
+                        }));
                     }));
                     if let Err(p) = r {
                         o.dispatch_panic = Some(format!("default pool of {} threads: {}", n, payload_str(&*p)));
